@@ -290,3 +290,26 @@ func job() {
 func longArgs(a, b int) {
 	check(101, 102, 103, 104, 105, 106, 107, 108, 109, 110, 111, 112, 113, 114, a, 1, 2, 3, 4, 5, 6, 7, 8, 9, 10, 11, 12, 13, 14, 15, 16, b, 1, 2, 3, 4, 5, 6, 7, 8, 9, 10, 11, 12, 13, 14, 15, 16, b, a, 1, 2, 3, 4, 5, 6, 7, 8, 9, 10, 11, 12, 13, 14, 15, 16, a)
 }
+
+func memoOne() {
+	a := open()
+	check(e1)
+	a.Close()
+}
+
+func memoTwo() {
+	a := open()
+	b := open()
+	check(e2)
+	b.Close()
+}
+
+func memoArgs() {
+	pair(7, 2, 9, nil, 2)
+	pair(8, 1, 2, nil, 2)
+	pick(a(), b(), 0, 1, use(b()))
+	pick(a(), b(), 0, 1, use(c()))
+	pick(a(), b(), 0, 1, use(a()))
+	f3(1, 2, 3, 2)
+	f3(1, 2, 3, 4)
+}
